@@ -8,6 +8,7 @@ import (
 	"bytes"
 	"crypto/ed25519"
 	"fmt"
+	"github.com/biscuit-auth/biscuit-go/v2/datalog"
 	"io"
 	"strings"
 
@@ -538,7 +539,7 @@ func runC09(c *Ctx) {
 }
 
 func runC16(c *Ctx) {
-	c.Rule = "(derivation) tokens created with root key id in {absent, 0, 1, 7, 2^31, 2^32-1} are attenuated, sealed and reloaded along random derivation histories (up to 8 steps); RootKeyID() is read after every derivation and must equal the creation id. (lookup) AuthorizerFor(WithRootPublicKeys(map, default)) with generated maps: the right key under the token's id, the right key only under a wrong id, only as default while the token carries an unknown id, empty keys, no default; the model's selectKey + chain walk decides; errors.Is(err, ErrNoPublicKeyAvailable) must hold exactly when the model says nokey. (reuse) four key sources each used for a sequence of 40 (400) tokens with and without identifiers; within the process one key source value serves every case with the same map and default. Non-trivial = the token carries an id and the map has at least two entries, or the history has at least two derivations; distinct = distinct (token bytes, map, default)."
+	c.Rule = "(derivation) tokens created with root key id in {absent, 0, 1, 7, 2^31, 2^32-1} are attenuated, sealed and reloaded along random derivation histories (up to 8 steps); RootKeyID() is read after every derivation and must equal the creation id. (lookup) AuthorizerFor(WithRootPublicKeys(map, default)) with generated maps: the right key under the token's id, the right key only under a wrong id, only as default while the token carries an unknown id, empty keys, no default, no default with an entry under identifier 0; the model's selectKey + chain walk decides; errors.Is(err, ErrNoPublicKeyAvailable) must hold exactly when the model says nokey. (reuse) four key sources each used for a sequence of 40 (400) tokens with and without identifiers; within the process one key source value serves every case with the same map and default. Non-trivial = the token carries an id and the map has at least two entries, or the history has at least two derivations; distinct = distinct (token bytes, map, default)."
 	r := NewRng(c.Seed)
 	n := 1200
 	if c.Thorough {
@@ -627,7 +628,7 @@ func runC16(c *Ctx) {
 		}
 		var keyEntries []string
 		addKey := func(id uint32, k []byte) { keyEntries = append(keyEntries, fmt.Sprintf("(%d %s)", id, hx(k))) }
-		scenario := r.Intn(7)
+		scenario := r.Intn(9)
 		dflt := "none"
 		tokID := uint32(99)
 		if want != nil {
@@ -656,6 +657,12 @@ func runC16(c *Ctx) {
 		case 5: // wrong key under the id, right key as default
 			addKey(tokID, other1)
 			dflt = hx(pub)
+		case 7: // no default; the right key sits under identifier 0 (an absent identifier is not 0)
+			addKey(0, pub)
+			addKey(1, other1)
+		case 8: // no default; a wrong key under 0, the right one under 7
+			addKey(0, other1)
+			addKey(7, pub)
 		default: // empty map, default right
 			dflt = hx(pub)
 		}
@@ -674,6 +681,8 @@ func runC16(c *Ctx) {
 		}
 	}
 }
+
+var c17Decoder = &biscuit.Unmarshaler{Symbols: &datalog.SymbolTable{}}
 
 func runC17(c *Ctx) {
 	c.Rule = "derivation histories over token families (build, append with identical or different content on the same and on sibling tokens, seal, reload): RevocationIds() is read for every live token after every operation; a derived token's ids must start with its parent's ids, grow by exactly one per append and not at all for seal / reload; the Lean wire decoder (independent of protobuf-go) must find the same signatures on the blocks of Serialize(); every signing event (build or append) of the whole run must have its own identifier: two blocks carry the same identifier only if they are the same signing event. Non-trivial = a history with at least one append of content identical to an earlier block; distinct = distinct token bytes."
@@ -761,7 +770,12 @@ func runC17(c *Ctx) {
 			default:
 				d, e2 := p.tok.Serialize()
 				if e2 == nil {
-					child, err = biscuit.Unmarshal(d)
+					// half of the reloads go through one decoder value used for the whole run
+					if r.Chance(1, 2) {
+						child, err = c17Decoder.Unmarshal(d)
+					} else {
+						child, err = biscuit.Unmarshal(d)
+					}
 				} else {
 					err = e2
 				}
